@@ -181,6 +181,11 @@ fn check_err(st: &mut Stats, who: &str, s: &[u8], e: &clap::Error, expect: &[Err
             if must_name && std::str::from_utf8(s).is_ok() && !r.contains("num-markerq7") {
                 st.violation(format!("vp:{}:error-does-not-name-arg", who), format!("input {:?} error: {:?}", show_bytes(s), r));
             }
+            // the clause has no exception for raw values that are not UTF-8 (F38: only the bool
+            // parser names the argument then; keyed per parser family)
+            if must_name && std::str::from_utf8(s).is_err() && !r.contains("num-markerq7") {
+                st.violation(format!("vp:{}:non-utf8-rejection-does-not-name-arg", who), format!("input {:?} error: {:?}", show_bytes(s), r));
+            }
         }
     }
 }
@@ -545,7 +550,7 @@ fn check_bool_input(st: &mut Stats, s: &[u8]) {
                 (Ok(v), Ok(mv)) if v == mv => st.count("falsey.accepted"),
                 (Err(e), Err(())) => {
                     st.count("falsey.rejected");
-                    check_err(st, "falsey", s, &e, &[ErrorKind::InvalidUtf8], false);
+                    check_err(st, "falsey", s, &e, &[ErrorKind::InvalidUtf8], true);
                 }
                 (r, m) => st.violation("vp:falsey:language", format!("input {:?}: got {:?}, model {:?}", show_bytes(s), r.map_err(|e| e.kind()), m)),
             }
